@@ -121,7 +121,8 @@ class Tracer:
     """Collects events (thread name, kind, what, holds_mdib_lock).
 
     kinds: 'before-acq' / 'acq' / 'rel' (outermost level of a traced lock only), 'rdV' / 'wrV' (version members),
-    'rdC' / 'wrC' (tables; what = table name or 'descriptor-object' for an in-place update of a descriptor),
+    'rdC' / 'wrC' (tables; what = table name, 'descriptor-object' for an in-place update of a descriptor, 'state-object'
+    for an assignment to an attribute of a state object that is in a table),
     'deref' (serialisation of a container = read of object content; what = 'descriptor' | 'state').
     `on_event(kind, what, holds)` runs in the acting thread and may block: that is how schedules are forced.
     """
@@ -132,6 +133,7 @@ class Tracer:
         self.on_event = None
         self.mdib_lock = None
         self.locks = {}
+        self.state_tables = []
         self._suspend = threading.local()
 
     def holds(self):
@@ -324,7 +326,20 @@ def install_tracing(mdib, tracer=None):
                     tr.emit('wrC', 'descriptor-object')
                 return _o(self, *a, **k)
             setattr(dcls, meth, _w)
+        # in-place write to a state object that IS in a table (published): the model's `mutate`
+        from sdc11073.mdib import statecontainers
+        scls = statecontainers.AbstractStateContainer
+        orig_setattr = scls.__setattr__
+
+        def _state_setattr(self, name, value, _o=orig_setattr):
+            tr = _ACTIVE_TRACER[0]
+            if tr is not None and tr.enabled and not name.startswith('_') and name not in ('node', 'descriptor_container'):
+                if any(self in t._objects for t in tr.state_tables):  # noqa: SLF001
+                    tr.emit('wrC', 'state-object')
+            return _o(self, name, value)
+        scls.__setattr__ = _state_setattr
         containerbase.ContainerBase._verif_traced = True  # noqa: SLF001
+    tracer.state_tables = [mdib.states, mdib.context_states]
     _ACTIVE_TRACER[0] = tracer
     return tracer
 
@@ -343,7 +358,8 @@ def to_actions(events, thread_id=None):
     kind is kept once, in order of first occurrence (in the model a repeated read in the same lock state without an
     own write in between observes the same value); consecutive writes of one kind are merged. Everything that concerns
     the description (table `descriptions`, descriptor objects) becomes `rdD` / `wrD k`, state tables `rdC` / `wrC k`,
-    serialisation of state objects `deref`; k = number of the write burst (every burst installs a new content).
+    serialisation of state objects `deref`, assignment to an attribute of a state object that is in a table `mutate k`;
+    k = number of the write burst (every burst installs a new content).
     """
     out = []
     seen = set()
@@ -361,11 +377,13 @@ def to_actions(events, thread_id=None):
         # the description (descriptions table, descriptor objects) is content that is read / written by value
         if what in ('descriptions', 'descriptor', 'descriptor-object'):
             act = {'rdC': 'rdD', 'deref': 'rdD', 'wrC': 'wrD'}.get(act, act)
-        if act in ('incV', 'wrC', 'wrD'):
+        if what == 'state-object':
+            act = 'mutate'       # attribute of a published state object assigned in place
+        if act in ('incV', 'wrC', 'wrD', 'mutate'):
             seen = set()
             if out and out[-1].split()[0] == act:
                 continue
-            if act in ('wrC', 'wrD'):
+            if act in ('wrC', 'wrD', 'mutate'):
                 n_wr += 1
                 act = f'{act} {n_wr}'
             out.append(act)
